@@ -31,6 +31,21 @@ class WriteOnlySink:
         return b"".join(self.chunks)
 
 
+class QueueingSink(WriteOnlySink):
+    """transport-like: write() queues the object it was handed (as asyncio's selector transport does
+    with a backlog) and the bytes are only looked at when the queue is flushed, after the call"""
+
+    def write(self, b):
+        self.touched.add("write")
+        if not isinstance(b, (bytes, bytearray, memoryview)):
+            raise TypeError("write() needs bytes")
+        self.chunks.append(b)
+        return len(b)
+
+    def data(self):
+        return b"".join(bytes(c) for c in self.chunks)
+
+
 class ReadOnlySource:
     def __init__(self, data, step=None):
         self._data, self._pos, self.touched = data, 0, set()
@@ -114,6 +129,12 @@ def run(ctx):
         outputs = {}
         b = io.BytesIO(); b.write(lead); write_all(b); outputs["BytesIO"] = b.getvalue()[len(lead):]
         w = WriteOnlySink(); write_all(w); outputs["write-only"] = w.data()
+        q = QueueingSink()
+        try:
+            write_all(q); outputs["queueing"] = q.data()
+        except Exception as e:  # noqa
+            bad.append({"what": f"encoding to a queueing write-only sink failed: {type(e).__name__}: {e}", "seq": s,
+                        "classes": [_codec.cls_name(classes, ci) for ci, *_ in msgs]})
         if w.touched - {"write"}:
             bad.append({"what": f"writer touched {sorted(w.touched - {'write'})} on the sink", "seq": s})
         if s % 10 == 0:
@@ -185,7 +206,7 @@ def run(ctx):
         "evaluations": n_seq, "distinct_nontrivial": n_seq,
         "traces_validated_against_impl": len(model_cases) - len(failing),
         "rule": "random sequences of 1-8 (header, payload) pairs of arbitrary API classes on one stream with random leading/"
-                "trailing bytes; sinks: BytesIO, write-only object, BufferedWriter on a file, asyncio.StreamWriter over a pipe; "
+                "trailing bytes; sinks: BytesIO, write-only copying object, write-only queueing object (keeps the chunk it was handed), BufferedWriter on a file, asyncio.StreamWriter over a pipe; "
                 "sources: BytesIO, read(n)-only object, BufferedReader with a 7-byte buffer; every sequence is distinct",
         "messages": n_msgs, "sink_kinds": sink_kinds, "model_cases": len(model_cases), "samples": samples,
         "property_failures_on_implementation": len(bad), "correspondence_disagreements": len(failing),
